@@ -165,7 +165,7 @@ func RunNewTask(opts GlobalOptions) error {
 		delete(updates, "epic")
 		if len(updates) > 0 {
 			agentID := opts.AgentID
-			if err := applySetUpdates(dir, opts, created.ID, updates, agentID, true); err != nil {
+			if _, _, err := applySetUpdates(dir, opts, created.ID, updates, agentID, true); err != nil {
 				return err
 			}
 		}
@@ -202,7 +202,7 @@ func RunNewTask(opts GlobalOptions) error {
 		delete(updates, "epic")
 		if len(updates) > 0 {
 			agentID := opts.AgentID
-			if err := applySetUpdates(dir, opts, created.ID, updates, agentID, true); err != nil {
+			if _, _, err := applySetUpdates(dir, opts, created.ID, updates, agentID, true); err != nil {
 				return err
 			}
 		}
@@ -251,7 +251,7 @@ func RunNewTask(opts GlobalOptions) error {
 		delete(updates, "epic")
 		if len(updates) > 0 {
 			agentID := opts.AgentID
-			if err := applySetUpdates(dir, opts, created.ID, updates, agentID, true); err != nil {
+			if _, _, err := applySetUpdates(dir, opts, created.ID, updates, agentID, true); err != nil {
 				return err
 			}
 		}
